@@ -369,6 +369,8 @@ for _t, (_a, _b) in (("ipv4-addr", _V4), ("ipv6-addr", _V6)):
     for _op in ("MATCHES", "LIKE", ">", "<", ">=", "<="):
         DISTINCT.append(("[%s:value %s %s]" % (_t, _op, _a), "[%s:value %s %s]" % (_t, _op, _b)))
 DISTINCT += [
+    # a list index and a key spelled with the same digits are different steps
+    ("[process:arguments[1] = '-k']", "[process:arguments.'1' = '-k']"), ("[x-a:b[1] = 1 OR x-a:b.'1' = 1]", "[x-a:b[1] = 1]"), ("[a:b[10].c = 1]", "[a:b.'10'.c = 1]"),
     ("[windows-registry-key:key MATCHES '\\\\D+']", "[windows-registry-key:key MATCHES '\\\\d+']"),
     ("[windows-registry-key:values[0].name MATCHES '^\\\\W\\\\S$']", "[windows-registry-key:values[0].name MATCHES '^\\\\w\\\\s$']"),
     # the same literal on a special path and on an ordinary path of one pattern: only the former compares without case / by network
@@ -378,6 +380,9 @@ DISTINCT += [
     ("[ipv4-addr:value = '10.1.2.3/8' OR ipv4-addr:x_note = '10.1.2.3/8']", "[ipv4-addr:value = '10.1.2.3/8' OR ipv4-addr:x_note = '10.0.0.0/8']"),
 ]
 REWRITES += [
+    # absorption removes an operand of ANOTHER object type: the two sides then mention different types
+    ("[ipv4-addr:value = '198.51.100.7'] OR ([ipv4-addr:value = '198.51.100.7'] AND [domain-name:value = 'example.com'])", "[ipv4-addr:value = '198.51.100.7']"),
+    ("[a:b = 1] OR ([c:d = 2] FOLLOWEDBY [a:b = 1])", "[a:b = 1]"), ("[a:b = 1 OR (a:b = 1 AND a:c = 2)] OR [x:y = 3]", "[x:y = 3] OR [a:b = 1]"),
     ("[windows-registry-key:values[3].name = 'ABC']", "[windows-registry-key:values[3].name = 'abc']"), ("[windows-registry-key:values[*].name = 'ABC']", "[windows-registry-key:values[*].name = 'abc']"),
     ("[ipv4-addr:value ISSUBSET '10.1.2.3/8']", "[ipv4-addr:value ISSUBSET '10.0.0.0/8']"), ("[ipv6-addr:value = '1:2:3:4:5:6:7:8/112']", "[ipv6-addr:value = '1:2:3:4:5:6:7:0/112']"),
     ("[ipv4-addr:value != '10.1.2.3/8']", "[ipv4-addr:value != '10.0.0.0/8']"),
@@ -402,7 +407,9 @@ def rewrites(i: int, which: int) -> bool:
             equivalent_patterns(hp, hq, stix_version="2.1")
         if which == 0 and i < NRW:
             p, q = REWRITES[i]
-            ok = equivalent_patterns(p, q, stix_version="2.1") and equivalent_patterns(q, p, stix_version="2.1")
+            ok = equivalent_patterns(p, q, stix_version="2.1") and equivalent_patterns(q, p, stix_version="2.1") \
+                and list(find_equivalent_patterns(p, [q, "[zz:never = 0]"], stix_version="2.1")) == [q] \
+                and list(find_equivalent_patterns(q, ["[zz:never = 0]", p, q], stix_version="2.1")) == [p, q]
         elif which == 1 and i < NDI:
             p, q = DISTINCT[i]
             ok = not equivalent_patterns(p, q, stix_version="2.1") and not equivalent_patterns(q, p, stix_version="2.1") \
